@@ -27,6 +27,9 @@ Inductive stmt :=
 | SIf (a b : stmt)
 | SLoop (a : stmt).
 
+(* a block of statements *)
+Definition seq (l : list stmt) : stmt := fold_right SSeq SSkip l.
+
 Record obj := { val : nat; refs : list loc }.
 Record st := { env : var -> option loc; heap : loc -> obj; next : loc }.
 
@@ -144,6 +147,11 @@ Definition check (params : list var) (p : stmt) : bool :=
   let '(town, tr) := infer params p in
   allin town params && allin tr town && ok town tr p.
 
+(* the same verdict with taint sets supplied from outside (the harness computes them; `ok` validates them) *)
+Record fn := { f_id : N; f_params : list var; f_own : list var; f_reach : list var; f_body : stmt }.
+Definition fn_ok (f : fn) : bool :=
+  allin (f_own f) (f_params f) && allin (f_reach f) (f_own f) && ok (f_own f) (f_reach f) (f_body f).
+
 (* variables the checker blames (for the report): targets of SMut / SStore that may denote an old object *)
 Fixpoint blamed (town : list var) (p : stmt) : list var :=
   match p with
@@ -153,6 +161,7 @@ Fixpoint blamed (town : list var) (p : stmt) : list var :=
   | _ => []
   end.
 Definition blame (params : list var) (p : stmt) : list var := blamed (fst (infer params p)) p.
+Definition fn_blame (f : fn) : list var := blamed (f_own f) (f_body f).
 
 (* ------------------------------------------------------------------ what "unchanged" means *)
 (* deep snapshot of an object: its content and, recursively, the snapshots of what it refers to *)
@@ -176,6 +185,14 @@ Inductive session : list call -> st -> st -> Prop :=
 | session_cons c cs s s' s'' :
     accepted c (next s) -> exec (c_body c) (enter (c_args c) s) s' -> session cs s' s'' ->
     session (c :: cs) s s''.
+
+(* sessions without the acceptance premise (used by the per-run tie, which supplies it per function) *)
+Inductive session_args : list call -> st -> st -> Prop :=
+| sa_nil s : session_args [] s s
+| sa_cons c cs s s' s'' :
+    (forall x l, c_args c x = Some l -> l < next s) ->
+    exec (c_body c) (enter (c_args c) s) s' -> session_args cs s' s'' ->
+    session_args (c :: cs) s s''.
 
 (* ------------------------------------------------------------------ reference programs *)
 Local Open Scope N_scope.
